@@ -492,6 +492,8 @@ def main(argv=None):
             'added': 'ghost only: contracts from contracts/*.vspec, ghost accessors/invariants, derived spec copies, Structural derives, proof prologues in %d bodies' % sum(1 for f in info.functions if f['prologue']),
             'derived_denotations': [d['fn'] for d in info.derived],
             'unsafe_blocks': info.unsafe, 'loops_in_exec_code': info.loops,
+            'followed_renames': (info.follow.as_dict() if getattr(info, 'follow', None) is not None else {}),
+            'hand_written_structural_markers': list(getattr(info, 'manual_structural', [])),
             'left_unverified_this_run': sorted(opaque), 'lost_anchors': [k for k, _ in info.lost] + info.lost_ghosts,
         }
         ids = list(R)
